@@ -48,6 +48,17 @@ Proof.
 Qed.
 Print Assumptions C03_heap_agrees.
 
+(* the shape of the concurrent middleware BEFORE commit f5f9a56 (seeded patch
+   C04-revert-concurrent-own-copy: the last attempt runs on the caller's request itself) is
+   race free as well, for every configuration and request in scope - joins are ignored by
+   the checker, so this covers attempts that outlive the stage.  Within C03 (parallel fan-out,
+   concurrent calls) that patch is therefore NOT a violation: the caller's request is touched
+   again only by a sequential merge, which is outside this property (C02/C04 own it). *)
+Theorem C03_last_attempt_on_callers_request_race_free : forall cfg q,
+  in_scope cfg q = true -> race_free obj_eqb (endpoint_prog_gen true cfg q) = true.
+Proof. exact (all_configs_gen true). Qed.
+Print Assumptions C03_last_attempt_on_callers_request_race_free.
+
 (* the excluded class is really excluded by the code, not by the model: a POST endpoint whose
    two backends are both configured with method GET shares one body reader *)
 Theorem C03_shared_body_outside_scope : exists cfg q, in_scope cfg q = false /\ race_free_b cfg q = false.
